@@ -7,14 +7,14 @@
 //@function src/engine/materialize/high_water.rs::advance
 //@function src/engine/materialize/high_water.rs::satisfies
 //@function src/engine/materialize/high_water.rs::is_zero
-//@insert file=src/engine/materialize/high_water.rs before=<<pub struct HighWaterMark {>>
+//@insert file=src/engine/materialize/high_water.rs struct=HighWaterMark
 //| #[cfg_attr(kani, derive(kani::Arbitrary))]
 //@end
-//@insert file=src/engine/materialize/high_water.rs before=<<pub fn advance(&mut self, timestamp: u64, event_id: u64) {>>
+//@insert file=src/engine/materialize/high_water.rs fn=HighWaterMark::advance
 //| #[cfg_attr(kani, kani::modifies(self))]
 //| #[cfg_attr(kani, kani::ensures(|_r| (self.timestamp, self.event_id) == if __verif_c14_high_water::lex_gt(timestamp, event_id, old(self.timestamp), old(self.event_id)) { (timestamp, event_id) } else { (old(self.timestamp), old(self.event_id)) }))]
 //@end
-//@insert file=src/engine/materialize/high_water.rs before=<<pub fn satisfies(&self, timestamp: u64, event_id: u64) -> bool {>>
+//@insert file=src/engine/materialize/high_water.rs fn=HighWaterMark::satisfies
 //| #[cfg_attr(kani, kani::ensures(|r: &bool| *r == __verif_c14_high_water::lex_gt(timestamp, event_id, self.timestamp, self.event_id)))]
 //@end
 //@harness name=advance_contract kind=complete tier=quick timeout=600 contract=C14.high_water.advance.lexicographic_max
